@@ -349,11 +349,36 @@ class ToolLimit(Exception):
     pass
 
 
+class FactList(list):
+    """list of z3 facts without duplicates (by AST id)"""
+    def __init__(self, it=()):
+        super().__init__()
+        self._ids = set()
+        self.extend(it)
+
+    def append(self, f):
+        i = f.get_id()
+        if i not in self._ids:
+            self._ids.add(i)
+            super().append(f)
+
+    def extend(self, it):
+        for f in it:
+            self.append(f)
+
+    def __iadd__(self, it):
+        self.extend(it)
+        return self
+
+    def copy(self):
+        return FactList(self)
+
+
 class State:
     def __init__(self):
         self.heap = {}        # cell -> z3 seq (bytearray cells) ; (ref, attr) -> V (object fields)
         self.pc = []          # path condition
-        self.facts = []       # instantiated axioms
+        self.facts = FactList()       # instantiated axioms
         self.ghost = {}
         self.envs = {}        # env id -> {name: V}
 
@@ -367,7 +392,7 @@ class State:
         s.envs = {k: dict(v) for k, v in self.envs.items()}
         s.heap = dict(self.heap)
         s.pc = list(self.pc)
-        s.facts = list(self.facts)
+        s.facts = FactList(self.facts)
         s.ghost = {k: (list(v) if isinstance(v, list) else v) for k, v in self.ghost.items()}
         return s
 
@@ -385,6 +410,15 @@ class Obligation:
         self.t = 0.0
 
 
+
+
+def zsum(terms):
+    terms = list(terms)
+    if not terms:
+        return z3.IntVal(0)
+    if len(terms) == 1:
+        return terms[0]
+    return z3.Sum(terms)
 
 
 def fresh(prefix, sort=None):
@@ -418,24 +452,40 @@ class Exec:
         self.yield_encoder = None
         self.hooks = {}        # (class qualname, attr) -> fn(ex, st, selfobj, args) -> [(st, value)]
         self.safety_names = itertools.count()
+        self.spec_depth = 0
+        self.deadline = time.time() + float(os.environ.get('PYVC_GEN_BUDGET_S', '90'))
 
     # ---------------- solver helpers
     def solver(self, st):
         s = z3.Solver()
-        s.set('timeout', 5000)
+        s.set('timeout', 2000)
         s.add(*st.facts)
         s.add(*st.pc)
         return s
 
+    def check(self, s, budget=3.0):
+        """solver.check() with a watchdog: z3's own timeout is not always honoured inside the sequence solver"""
+        import threading
+        ctx = s.ctx
+        tm = threading.Timer(budget, ctx.interrupt)
+        tm.daemon = True
+        tm.start()
+        try:
+            return s.check()
+        except z3.Z3Exception:
+            return z3.unknown
+        finally:
+            tm.cancel()
+
     def feasible(self, st, cond):
         s = self.solver(st)
         s.add(cond)
-        return s.check() != z3.unsat
+        return self.check(s) != z3.unsat
 
     def entails(self, st, cond):
         s = self.solver(st)
         s.add(z3.Not(cond))
-        return s.check() == z3.unsat
+        return self.check(s) == z3.unsat
 
     def oblige(self, st, kind, goal, line=None):
         name = '%s/%s/L%s/#%d' % (self.label, kind, line, next(self.safety_names))
@@ -448,8 +498,11 @@ class Exec:
             return [(st, True)]
         if z3.is_false(z3.simplify(cond)):
             return [(st, False)]
-        t = self.feasible(st, cond)
-        f = self.feasible(st, z3.Not(cond))
+        if self.spec_depth > 0:
+            t = f = True           # pure spec code: no solver call, branches are merged into an ite at return
+        else:
+            t = self.feasible(st, cond)
+            f = self.feasible(st, z3.Not(cond)) if t else True
         if t and f:
             s2 = st.clone()
             st.pc.append(cond)
@@ -556,7 +609,10 @@ class Exec:
         vals = []
         s = self.solver(st)
         for _ in range(limit + 1):
-            if s.check() != z3.sat:
+            r = self.check(s)
+            if r == z3.unknown:
+                return None
+            if r != z3.sat:
                 return vals
             m = s.model()
             v = m.eval(z, model_completion=True)
@@ -633,7 +689,7 @@ class Exec:
         return self.ev_seq(n.elts, env, st, ctx, VTuple)
 
     def ev_List(self, n, env, st, ctx):
-        return [(s, self.new_list(s, t.items)) for s, t in self.ev_seq(n.elts, env, st, ctx, VTuple)]
+        return [(s, t if isinstance(t, Raise) else self.new_list(s, t.items)) for s, t in self.ev_seq(n.elts, env, st, ctx, VTuple)]
 
     def new_list(self, st, items):
         cell = 'list!%d' % next(_fresh)
@@ -647,14 +703,7 @@ class Exec:
         return self.ev_seq(n.elts, env, st, ctx, VSet)
 
     def ev_seq(self, elts, env, st, ctx, mk):
-        outs = [(st, [])]
-        for e in elts:
-            nxt = []
-            for s, acc in outs:
-                for s2, v in self.ev(e, env, s, ctx):
-                    nxt.append((s2, acc + [v]))
-            outs = nxt
-        return [(s, mk(acc)) for s, acc in outs]
+        return [(s, acc if isinstance(acc, Raise) else mk(acc)) for s, acc in self.ev_many(elts, env, st, ctx)]
 
     def ev_Dict(self, n, env, st, ctx):
         outs = [(st, [])]
@@ -670,6 +719,9 @@ class Exec:
     def ev_IfExp(self, n, env, st, ctx):
         out = []
         for s, c in self.ev(n.test, env, st, ctx):
+            if isinstance(c, Raise):
+                out.append((s, c))
+                continue
             for s2, t in self.fork(s, self.truth(c, s)):
                 out += self.ev(n.body if t else n.orelse, env, s2, ctx)
         return out
@@ -679,7 +731,7 @@ class Exec:
         def go(i, s):
             res = []
             for s1, v in self.ev(n.values[i], env, s, ctx):
-                if i == len(n.values) - 1:
+                if i == len(n.values) - 1 or isinstance(v, Raise):
                     res.append((s1, v))
                     continue
                 for s2, t in self.fork(s1, self.truth(v, s1)):
@@ -693,7 +745,9 @@ class Exec:
     def ev_UnaryOp(self, n, env, st, ctx):
         out = []
         for s, v in self.ev(n.operand, env, st, ctx):
-            if isinstance(n.op, ast.Not):
+            if isinstance(v, Raise):
+                out.append((s, v))
+            elif isinstance(n.op, ast.Not):
                 out.append((s, VBool(z3.Not(self.truth(v, s)))))
             elif isinstance(n.op, ast.USub):
                 out.append((s, VInt(-self.as_int(v))))
@@ -707,20 +761,16 @@ class Exec:
         if len(n.ops) != 1:
             # chain: a < b < c
             outs = []
-            for s, l in self.ev(n.left, env, st, ctx):
-                conds = [(s, l, [])]
-                for op, comp in zip(n.ops, n.comparators):
-                    nxt = []
-                    for s1, left, acc in conds:
-                        for s2, r in self.ev(comp, env, s1, ctx):
-                            nxt.append((s2, r, acc + [self.cmp(op, left, r, s2)]))
-                    conds = nxt
-                outs += [(s1, VBool(z3.And(*acc))) for s1, _, acc in conds]
+            for s, vs in self.ev_many([n.left] + list(n.comparators), env, st, ctx):
+                if isinstance(vs, Raise):
+                    outs.append((s, vs))
+                    continue
+                acc = [self.cmp(op, vs[i], vs[i + 1], s) for i, op in enumerate(n.ops)]
+                outs.append((s, VBool(z3.And(*acc))))
             return outs
         out = []
-        for s, l in self.ev(n.left, env, st, ctx):
-            for s2, r in self.ev(n.comparators[0], env, s, ctx):
-                out.append((s2, VBool(self.cmp(n.ops[0], l, r, s2))))
+        for s, vs in self.ev_many([n.left, n.comparators[0]], env, st, ctx):
+            out.append((s, vs if isinstance(vs, Raise) else VBool(self.cmp(n.ops[0], vs[0], vs[1], s))))
         return out
 
     def cmp(self, op, l, r, st):
@@ -763,11 +813,27 @@ class Exec:
             return z3.BoolVal(False)
         raise ToolLimit('eq %s %s' % (type(l).__name__, type(r).__name__))
 
+    def ev_many(self, nodes, env, st, ctx):
+        """evaluate nodes left to right; -> [(state, [values])] or [(state, Raise)]"""
+        outs = [(st, [])]
+        for nd in nodes:
+            nxt = []
+            for s, acc in outs:
+                if isinstance(acc, Raise):
+                    nxt.append((s, acc))
+                    continue
+                for s2, v in self.ev(nd, env, s, ctx):
+                    nxt.append((s2, v if isinstance(v, Raise) else acc + [v]))
+            outs = nxt
+        return outs
+
     def ev_BinOp(self, n, env, st, ctx):
         out = []
-        for s, l in self.ev(n.left, env, st, ctx):
-            for s2, r in self.ev(n.right, env, s, ctx):
-                out += self.binop(n.op, l, r, s2, n)
+        for s, vs in self.ev_many([n.left, n.right], env, st, ctx):
+            if isinstance(vs, Raise):
+                out.append((s, vs))
+            else:
+                out += self.binop(n.op, vs[0], vs[1], s, n)
         return out
 
     def binop(self, op, l, r, st, n):
@@ -867,7 +933,7 @@ class Exec:
                     i = j + 1
                 else:
                     i += 1
-            return z3.Sum(terms) if terms else z3.IntVal(0)
+            return zsum(terms) if terms else z3.IntVal(0)
         # both symbolic: need known width
         for w in (8, 16, 32):
             if self.entails(st, z3.And(a >= 0, a < 2 ** w, b >= 0, b < 2 ** w)):
@@ -881,7 +947,7 @@ class Exec:
                     else:
                         bit = (x + y) % 2
                     bits.append(bit * 2 ** i)
-                return z3.Sum(bits)
+                return zsum(bits)
         raise ToolLimit('bitop on unbounded ints')
 
     def repeat(self, l, r, st):
@@ -900,7 +966,10 @@ class Exec:
     def ev_Attribute(self, n, env, st, ctx):
         out = []
         for s, o in self.ev(n.value, env, st, ctx):
-            out += self.getattr(o, n.attr, s, ctx, n)
+            if isinstance(o, Raise):
+                out.append((s, o))
+            else:
+                out += self.getattr(o, n.attr, s, ctx, n)
         return out
 
     def getattr(self, o, attr, st, ctx, n=None):
@@ -988,13 +1057,21 @@ class Exec:
     def ev_Subscript(self, n, env, st, ctx):
         out = []
         for s, o in self.ev(n.value, env, st, ctx):
+            if isinstance(o, Raise):
+                out.append((s, o))
+                continue
             if isinstance(n.slice, ast.Slice):
+                if n.slice.step is not None:
+                    raise ToolLimit('slice step')
                 for s2, lo in (self.ev(n.slice.lower, env, s, ctx) if n.slice.lower else [(s, None)]):
+                    if isinstance(lo, Raise):
+                        out.append((s2, lo))
+                        continue
                     for s3, hi in (self.ev(n.slice.upper, env, s2, ctx) if n.slice.upper else [(s2, None)]):
-                        out.append((s3, self.slice(o, lo, hi, s3)))
+                        out.append((s3, hi if isinstance(hi, Raise) else self.slice(o, lo, hi, s3)))
             else:
                 for s2, i in self.ev(n.slice, env, s, ctx):
-                    out += self.index(o, i, s2, n)
+                    out += [(s2, i)] if isinstance(i, Raise) else self.index(o, i, s2, n)
         return out
 
     def norm_idx(self, i, L):
@@ -1061,6 +1138,9 @@ class Exec:
     def ev_Call(self, n, env, st, ctx):
         outs = []
         for s, f in self.ev(n.func, env, st, ctx):
+            if isinstance(f, Raise):
+                outs.append((s, f))
+                continue
             argsets = [(s, [])]
             for a in n.args:
                 nxt = []
@@ -1079,13 +1159,19 @@ class Exec:
                 for kw in n.keywords:
                     nxt = []
                     for s2, acc in kwsets:
+                        if isinstance(acc, Raise):
+                            nxt.append((s2, acc))
+                            continue
                         for s3, v in self.ev(kw.value, env, s2, ctx):
+                            if isinstance(v, Raise):
+                                nxt.append((s3, v))
+                                continue
                             d = dict(acc)
                             d[kw.arg] = v
                             nxt.append((s3, d))
                     kwsets = nxt
                 for s2, kws in kwsets:
-                    outs += self.call(f, args, kws, s2, ctx, n, env)
+                    outs += [(s2, kws)] if isinstance(kws, Raise) else self.call(f, args, kws, s2, ctx, n, env)
         return outs
 
     # ---------------- calls
@@ -1139,6 +1225,80 @@ class Exec:
                 raise ToolLimit('missing arg %s for %s' % (p, node.name))
         env = st.new_env(f.env, vars_)
         cctx = {'mod': mod, 'cls': f.cls, 'fn': node.name}
+        if mod.startswith('specs.') and f.env is None:
+            return self.merged(st, lambda: self.call_body(node, env, st, cctx))
+        return self.call_body(node, env, st, cctx)
+
+    def merged(self, st, thunk):
+        """run pure spec code without feasibility queries and merge its outcomes into one ite-valued result"""
+        base = len(st.pc)
+        self.spec_depth += 1
+        try:
+            outs = thunk()
+        finally:
+            self.spec_depth -= 1
+        good = []
+        if self.spec_depth == 0:
+            rs = [(s, v) for s, v in outs if isinstance(v, Raise)]
+            if rs:
+                s0 = rs[0][0].clone()
+                s0.pc = s0.pc[:base]
+                for s, _ in rs:
+                    s0.facts.extend(s.facts)
+                if self.feasible(s0, z3.Or(*[z3.And(*s.pc[base:]) if len(s.pc) > base else z3.BoolVal(True) for s, _ in rs])):
+                    for s, v in rs:
+                        if self.feasible(s, z3.BoolVal(True)):
+                            raise ToolLimit('spec expression can raise %s at line %s' % (v.exc, v.where))
+            good = [(s, v) for s, v in outs if not isinstance(v, Raise)]
+        else:
+            good = list(outs)
+        if not good:
+            if self.spec_depth > 0:
+                return []          # infeasible branch of an enclosing spec expression
+            raise ToolLimit('spec expression has no outcome')
+        raises = [(s, v) for s, v in good if isinstance(v, Raise)]
+        vals = [(s, v) for s, v in good if not isinstance(v, Raise)]
+        if raises and self.spec_depth > 0 and not vals:
+            return raises[:1]
+        if len(good) == 1:
+            s, v = good[0]
+            s.pc = s.pc[:base] + []   # the single outcome is unconditional
+            return [(s, v)]
+        facts = FactList()
+        for s, _ in good:
+            facts.extend(s.facts)
+        if raises:
+            # nested spec call that may raise on some branch: keep branches apart (outer merge decides)
+            return good
+        conds = [z3.And(*s.pc[base:]) if len(s.pc) > base else z3.BoolVal(True) for s, _ in vals]
+        v = self.merge_vals([v for _, v in vals], conds, vals[0][0])
+        s0 = vals[0][0]
+        s0.pc = s0.pc[:base]
+        s0.facts = facts
+        return [(s0, v)]
+
+    def merge_vals(self, vs, conds, st):
+        if all(isinstance(v, VNone) for v in vs):
+            return VNone()
+        if all(isinstance(v, VTuple) and len(v.items) == len(vs[0].items) for v in vs):
+            return VTuple([self.merge_vals([v.items[i] for v in vs], conds, st) for i in range(len(vs[0].items))])
+        if all(isinstance(v, VBool) for v in vs):
+            zs = [v.z for v in vs]
+            mk = VBool
+        elif all(isinstance(v, (VInt, VBool)) for v in vs):
+            zs = [self.as_int(v) for v in vs]
+            mk = VInt
+        elif all(isinstance(v, (VBytes, VBuf)) for v in vs):
+            zs = [self.seq(v, st) for v in vs]
+            mk = VBytes
+        else:
+            raise ToolLimit('cannot merge spec outcomes of kinds %s' % sorted({type(v).__name__ for v in vs}))
+        r = zs[-1]
+        for z, c in zip(reversed(zs[:-1]), reversed(conds[:-1])):
+            r = z3.If(c, z, r)
+        return mk(r)
+
+    def call_body(self, node, env, st, cctx):
         res = []
         for s, ctl in self.block(node.body, env, st, cctx):
             if isinstance(ctl, Ret):
@@ -1343,7 +1503,7 @@ class Exec:
             els = [S[j] for j in range(kv)]
             for e in els:
                 s2.facts.append(z3.And(e >= 0, e < 256))
-            val = z3.Sum([els[j] * 256 ** (kv - 1 - j) for j in range(kv)]) if els else z3.IntVal(0)
+            val = zsum([els[j] * 256 ** (kv - 1 - j) for j in range(kv)]) if els else z3.IntVal(0)
             res.append((s2, VInt(val)))
         return res
 
@@ -1399,6 +1559,8 @@ class Exec:
         return outs
 
     def stmt(self, n, env, st, ctx):
+        if time.time() > self.deadline:
+            raise ToolLimit('generation budget exhausted (path exploration too expensive)')
         m = getattr(self, 'st_' + type(n).__name__, None)
         if m is None:
             raise ToolLimit('stmt %s' % type(n).__name__)
